@@ -246,6 +246,15 @@ def check_tables(res):
             env = envs[0]
             body = modes([env.nodelist])
             args = modes(list(env.nodeargd.argnlist) if env.nodeargd is not None else [])
+            # the body was not opened by a math-shift delimiter: whatever it records as its opening
+            # delimiter, it is not one of those (stale from a formula opened earlier)
+            stale = [n.parsing_state.math_mode_delimiter for n in walk(env.nodelist)
+                     if kind(n) != 'list' and n.parsing_state.math_mode_delimiter in
+                     ('$', '$$', '\\(', '\\[')]
+            if stale:
+                res.fail('c10:math-environment-body-records-a-delimiter',
+                         'body of %s in %r records the opening delimiter %r' % (name, src, stale[0]),
+                         case)
             if not body or not all(body):
                 res.fail('c10:math-environment-body-not-in-math-mode:' + ('starred' if name.endswith('*')
                                                                           else 'plain'),
